@@ -38,6 +38,13 @@ Theorem C02_result_round_trip : forall z s id,
 Proof. exact result_round_trip. Qed.
 Print Assumptions C02_result_round_trip.
 
+(* a std::string argument is built with the trimmed length L<name> exactly when the C prototype has that parameter: in the
+   bufferify wrappers the text is blank padded, not terminated *)
+Theorem C02_checked_string_uses_its_length : forall w c r, wrapper_ok w = true -> In (c, r) (w_args w) -> c = StringFrom ->
+  smem (String.append "L" r) (w_cparams w) = smem r (w_lens w).
+Proof. exact checked_string_uses_its_length. Qed.
+Print Assumptions C02_checked_string_uses_its_length.
+
 Example C02_example : wrapper_ok ex_w = true /\
   received ex_w (caller_env (w_params ex_w) [XNum 7; XEnum 5; XStr [104%N; 105%N]; XObj 3]) = [XNum 7; XEnum 5; XStr [104%N; 105%N]; XObj 3].
 Proof. exact ex_w_delivers. Qed.
